@@ -160,8 +160,8 @@ func (r ReadServerIDResponse) bytes(data []byte) []byte {
 	data[0] = r.UnitID
 	data[1] = FunctionReadServerID
 
-	serverIDLen := uint8(len(r.ServerID))
-	data[2] = serverIDLen
+	serverIDLen := int(uint8(len(r.ServerID)))
+	data[2] = uint8(serverIDLen)
 	copy(data[3:3+serverIDLen], r.ServerID)
 
 	data[3+serverIDLen] = r.Status
